@@ -51,7 +51,9 @@ func Line(r *rand.Rand, o TextOpts) (string, string) {
 	case x < 53:
 		return "/-/-/-/", "escape-token"
 	case x < 55:
-		return pick(r, []string{"----", "--- ", " ---", "/-/-/-/ ", "--", "/-/-/-", "---x", "x---"}), "near-terminator"
+		return pick(r, []string{"----", "--- ", " ---", "/-/-/-/ ", "--", "/-/-/-", "---x", "x---",
+			// the terminator next to characters that Unicode-aware trimming removes
+			"---\u00a0", "---\u200b", "\u00a0---", "---\u2028", "\ufeff---", "---\u0085", "---\v", "/-/-/-/\u00a0"}), "near-terminator"
 	case x < 56:
 		// a line that ends (or starts) with the terminator exactly at a 4096-byte chunk boundary
 		// of a buffered reader: read in fragments, its last fragment IS `---`
@@ -69,7 +71,7 @@ func Line(r *rand.Rand, o TextOpts) (string, string) {
 		}
 		return pick(r, []string{"[Test - 1]", "[TestZ/q - 3]"}), "header-like"
 	case x < 71:
-		return pick(r, []string{"[", "]", "[x]", "[Test - ]", "[Test - x]", "[TestQ - 1] ", " [TestQ - 1]", "[]", "[TestQ-1]"}), "header-like"
+		return pick(r, []string{"[", "]", "[x]", "[Test - ]", "[Test - x]", "[TestQ - 1] ", " [TestQ - 1]", "[]", "[TestQ-1]", "[TestQ - 1]\u00a0", "\ufeff[TestQ - 1]"}), "header-like"
 	case x < 76:
 		return pick(r, []string{"héllo wörld", "日本語", "emoji 🎉", "�", "a b", " "}), "utf8-multibyte"
 	case x < 82:
